@@ -46,6 +46,8 @@ def contender(path, rounds, idx, out_path, hows, until=None, timed=(0.05, 0.002)
             ok = lock.acquire(blocking=False)
         elif how == 'timed':
             ok = lock.acquire(timeout=timed[0], poll_interval=timed[1])
+        elif how == 'timed-long':
+            ok = lock.acquire(timeout=2.0, poll_interval=0.005)      # polls through a holder's whole tenure, then wins
         elif how == 'with':
             lock.__enter__()
             ok = True
@@ -83,6 +85,8 @@ def contender(path, rounds, idx, out_path, hows, until=None, timed=(0.05, 0.002)
             lock.__exit__(None, None, None)
         else:
             lock.release()
+        if lock.is_locked:          # (this process never nests) released, yet the object still says it holds the lock
+            inconsistent += 1
     with open(out_path, 'w') as f:
         json.dump({'done': done, 'clashes': clashes, 'waited': waited, 'inconsistent': inconsistent, 'rounds': r + 1}, f)
 
@@ -351,7 +355,7 @@ def crash_at(name, n, ncontenders=0, rounds=10):
             os.close(idle_w)
             try:
                 # the timed attempts' last poll sleep straddles their deadline (polls at 0, 20, 40 ms; deadline 30 ms)
-                contender(path, 3, i, out, ['timed', 'acquire', 'ctx', 'timed'], until=dead_flag, timed=(0.03, 0.02))
+                contender(path, 3, i, out, ['timed', 'acquire', 'ctx', 'timed-long'], until=dead_flag, timed=(0.03, 0.02))
                 os.read(idle_r, 1)
             except BaseException:  # noqa
                 code = 3
@@ -377,7 +381,7 @@ def crash_at(name, n, ncontenders=0, rounds=10):
             if vpid == 0:
                 os.close(sup_w)
                 os.close(hold_r)
-                _victim(name, n, path, info_path, F, pre)
+                _victim(name, n, path, info_path, F, pre, hold=0.03 if ncontenders else 0)
                 os._exit(0)
             _, vst = os.waitpid(vpid, 0)
             vk = os.WIFSIGNALED(vst) and os.WTERMSIG(vst) == signal.SIGKILL
@@ -390,7 +394,7 @@ def crash_at(name, n, ncontenders=0, rounds=10):
             os._exit(3)
         os._exit(0)
     if pid == 0:
-        _victim(name, n, path, info_path, F, None)
+        _victim(name, n, path, info_path, F, None, hold=0.03 if ncontenders else 0)
         os._exit(0)
     if forked:
         os.close(sup_w)
@@ -442,7 +446,7 @@ def crash_at(name, n, ncontenders=0, rounds=10):
     return res
 
 
-def _victim(name, n, path, info_path, F, pre):
+def _victim(name, n, path, info_path, F, pre, hold=0):
     if True:
         cnt = [0]
         locks = [pre] if pre is not None else []
@@ -464,7 +468,11 @@ def _victim(name, n, path, info_path, F, pre):
                 if cnt[0] == n:
                     fn = frame.f_code.co_name
                     with open(info_path, 'w') as f:
-                        json.dump({'locked': any(l.is_locked for l in locks), 'func': fn, 'line': frame.f_lineno}, f)
+                        locked = any(l.is_locked for l in locks)
+                        json.dump({'locked': locked, 'func': fn, 'line': frame.f_lineno}, f)
+                    if locked and hold:
+                        # a holder that is slow before it dies: live contenders certainly meet a held lock (and poll)
+                        time.sleep(hold)
                     os.kill(os.getpid(), signal.SIGKILL)
             return lt
         import threading as _th
